@@ -1,10 +1,32 @@
-(** Property C11 — interrupted solving is a safe approximation. *)
-From Chalk Require Import Engine.RecEngine Engine.RecWitness.
+(** Property C11 — interrupted solving is a safe approximation.
+    [should_continue] is the arbitrary boolean stream [sc cf]; [quiet cf s s'] says that no
+    call of it between the two states answered [false]. *)
+From Chalk Require Import Engine.RecTheorems.
+
+(** A root solve that was cut short (any stream, any history before it) answers the full
+    answer or the weaker [Amb]. *)
+Theorem rec_interrupt_weaker : forall G cf fuel h fuel' g v s' v0,
+  wf G -> ~ mixed_cycle G -> vr cf = repaired -> in_graph G h -> g < length G ->
+  solve_root G cf fuel' g (after G cf fuel h) = Done v s' -> sem G g v0 -> weaker v v0.
+Proof. intros G cf fuel h fuel' g v s' v0 Hwf Hnm. exact (rec_interrupt_weaker_lemma G Hwf Hnm cf fuel h fuel' g v s' v0). Qed.
+
+(** Whatever was interrupted before, the state stays sound: every cache entry is the
+    declarative value, and a later uninterrupted solve on the same context answers the
+    declarative value -- i.e. what a fresh context answers (C10 [rec_history_independent]). *)
+Theorem rec_interrupt_state_ok : forall G cf fuel h fuel' g v s',
+  wf G -> ~ mixed_cycle G -> vr cf = repaired -> in_graph G h -> g < length G ->
+  (forall x w, cache_get (cache (after G cf fuel h)) x = Some w -> sem G x w) /\
+  (solve_root G cf fuel' g (after G cf fuel h) = Done v s' -> quiet cf (after G cf fuel h) s' -> sem G g v).
+Proof.
+  intros G cf fuel h fuel' g v s' Hwf Hnm Hvr Hin Hg. split.
+  - exact (rec_cache_exact_lemma G Hwf Hnm cf fuel h Hvr Hin).
+  - exact (rec_exact_after G Hwf Hnm cf fuel h fuel' g v s' Hvr Hin Hg).
+Qed.
 
 (** F3 on the faithful model of the UNCHANGED engine. *)
 Theorem rec_interrupt_refuted :
   exists G g stop,
-    answer G (cfg unchanged stop []) 100 [g; g] init_state = Some (OVal Amb) /\
-    answer G (cfg unchanged [] []) 100 [g] init_state = Some (OVal Yes) /\
+    answer G (RecWitness.cfg unchanged stop []) 100 [g; g] init_state = Some (OVal Amb) /\
+    answer G (RecWitness.cfg unchanged [] []) 100 [g] init_state = Some (OVal Yes) /\
     (forall i, 1 <= i -> not_in stop i = true).
 Proof. exact RecWitness.rec_interrupt_refuted. Qed.
